@@ -350,12 +350,15 @@ class _Scratch:
         """Returns a description of the first probe that disagrees with the expected mode, else None."""
         var, obj = self.var, self.obj
         if exp is None:
-            o = W.Item(a=W.V(1))
-            if type(o) is not W.Item or isinstance(o, SymbolicExpression):
-                return "constructing a @symbol class outside any block did not return a real instance: %s" % type(o).__name__
-            r = W.p_odd(obj)
-            if isinstance(r, SymbolicExpression) or r not in (True, False):
-                return "calling a @predicate function outside any block did not return a plain value"
+            try:
+                o = W.Item(a=W.V(1))
+                if type(o) is not W.Item or isinstance(o, SymbolicExpression):
+                    return "constructing a @symbol class outside any block did not return a real instance: %s" % type(o).__name__
+                r = W.p_odd(obj)
+                if isinstance(r, SymbolicExpression) or r not in (True, False):
+                    return "calling a @predicate function outside any block did not return a plain value"
+            except Exception as e:
+                return f"ordinary construction / predicate call outside any block raised {type(e).__name__}"
             for name, f in (("attribute", lambda: var.a), ("==", lambda: var == 1), ("[]", lambda: var[0]),
                             ("call", lambda: var()), ("<", lambda: var < 1)):
                 try:
@@ -366,15 +369,18 @@ class _Scratch:
                     return f"symbolic operator {name} outside any block raised {type(e).__name__} instead of AttributeError"
                 return f"symbolic operator {name} on a variable was accepted outside any block"
             return None
-        v = W.Item(From(self.dom))
-        if not isinstance(v, SymbolicExpression):
-            return "constructing a @symbol class inside a block did not build an expression"
-        p = W.p_odd(var)
-        if not isinstance(p, SymbolicExpression):
-            return "calling a @predicate function inside a block did not build an expression"
-        a = var.a
-        if not isinstance(a, SymbolicExpression):
-            return "attribute access on a variable inside a block did not build an expression"
+        try:
+            v = W.Item(From(self.dom))
+            if not isinstance(v, SymbolicExpression):
+                return "constructing a @symbol class inside a block did not build an expression"
+            p = W.p_odd(var)
+            if not isinstance(p, SymbolicExpression):
+                return "calling a @predicate function inside a block did not build an expression"
+            a = var.a
+            if not isinstance(a, SymbolicExpression):
+                return "attribute access on a variable inside a block did not build an expression"
+        except Exception as e:
+            return f"building an expression inside a block raised {type(e).__name__}: {str(e)[:120]}"
         return None
 
 
